@@ -41,6 +41,10 @@ open UrcuVerif UrcuVerif.Src UrcuVerif.Gen.Src UrcuVerif.CallRcu UrcuVerif.Src.C
 structure Layout where
   crd : Loc → Option Nat
   cb : Loc → Option Nat
+  /-- helper side only (`Src/CallRcuHelper.lean`): the batch a splice takes when the last node it returns is the node of
+  this `rcu_head` (every `rcu_head` is queued once – L2's guard `reg id = false` of `crCall` –, so the batch that ends
+  with it is unique in a run: a prophecy parameter of the abstraction, tied to the run by the oracle discipline) -/
+  batch : Loc → List Nat := fun _ => []
 
 def wakeArgs (F : Loc) : List Val := [.ptr F, .int 1, .int 1, .int 0, .int 0, .int 0]
 
